@@ -32,6 +32,8 @@ def _spec(case: dict) -> dict:
         sp = specs.self_loop(times)
     elif shape == "side":
         sp = specs.jump_side_branch(times)
+    elif shape == "fanin":
+        sp = specs.jump_fanin_off_body(times)
     elif shape == "forward":
         sp = specs.forward_jump()
         sp["stages"][0]["t"][0]["times"] = times
@@ -52,7 +54,7 @@ def gen_cases(tier: str, seed: int) -> list[dict]:
     cases = []
     reps = 1 if tier == "quick" else 10
     for _ in range(reps):
-        for shape in ("self", "loop", "side", "forward"):
+        for shape in ("self", "loop", "side", "fanin", "forward"):
             for mj in (None, 0, 1, 2, 3, 10):
                 limit = DEFAULT_LIMIT if mj is None else mj
                 for times in sorted({0, 1, 2, limit - 1, limit, limit + 1, limit + 3, 10**6} - {-1}):
